@@ -45,7 +45,8 @@ def bind():
         print('BROKEN: atsim.potentials bound to %s, expected under %s' % (f, REPO))
         raise SystemExit(2)
     import logging
-    logging.disable(logging.CRITICAL)
+    if not os.environ.get('VERIF_LOGGING'):      # (set by seams.fresh_process: an embedding application that configured logging itself)
+        logging.disable(logging.CRITICAL)
     assert os.linesep == '\n'
     _bound = True
 
